@@ -61,7 +61,7 @@ def spectrum():
     t = ""
     for k in range(0, 6):
         tier = "quick" if k <= 4 else "thorough"
-        t += f"// @harness props=C04 tier={tier} group=f64 bounds=shape=[1,1,1,1],axis-list-length={k},entries=0..5 timeout=1200\n"
+        t += f"// @harness props=C04,C17 tier={tier} group=f64 bounds=shape=[1,1,1,1],axis-list-length={k},entries=0..5 timeout=1200\n"
         t += f"marginalize_validation_h!(marginalize_validation_len{k}, {k}, {10});\n\n"
     fill(p, "MARGINALIZE_VALIDATION_CASES", t)
 
